@@ -23,6 +23,7 @@ def step (st : St) (toks : List String) : St × List Issue :=
   match toks with
   | "H" :: h :: _ => ({ st with hist := h, lastEv := [], initOk := true, leaky := false, reported := [], hists := st.hists + 1 }, [])
   | "HERR" :: _ => (st, [])
+  | "Z" :: _ => (st, [])
   | "X" :: "leaky" :: _ => ({ st with leaky := true }, [])
   | "E" :: ev => ({ st with lastEv := ev, events := st.events + 1 }, [])
   | "R" :: "panic" :: rest =>
